@@ -421,29 +421,51 @@ def offsets(base, scale, rich):
 
 
 def coord_set(bases, scale, rich, nonneg=False):
+    """(tag, value, exact base value or None) for one generation axis"""
     out, seen = [], set()
     for name, b in bases:
         for kind, v in offsets(b, scale, rich):
             if (nonneg and v < 0) or v in seen:
                 continue
             seen.add(v)
-            out.append((f"{name}:{kind}", v))
-    out.append(("generic", 0.37 * scale))
-    if not nonneg:
-        out.append(("generic", -1.21 * scale))
-    else:
-        out.append(("generic", 1.21 * scale))
+            if b == 0.0 and kind == "ulp":
+                kind = "sub"                      # a few ulp of 0 are sub-normal offsets
+            out.append((f"{name}:{kind}", v, b))
+    out.append(("generic", 0.37 * scale, None))
+    out.append(("generic", (1.21 if nonneg else -1.21) * scale, None))
     for m in (1e3, -1e6, 1e12):
         if not (nonneg and m < 0):
-            out.append(("far", m * scale))
+            out.append(("far", m * scale, None))
     return out
 
 
 def product_points(axes):
-    pts = [((), ())]
+    """full product: (tags, values, bases)"""
+    pts = [((), (), ())]
     for ax in axes:
-        pts = [(t + (tag,), v + (val,)) for t, v in pts for tag, val in ax]
+        pts = [(t + (tag,), v + (val,), bs + (bv,)) for t, v, bs in pts for tag, val, bv in ax]
     return pts
+
+
+def cart_points(axes, sc):
+    return [(t, v, {"kind": "cart", "coords": list(v), "bases": list(bs), "sc": sc}) for t, v, bs in product_points(axes)]
+
+
+def cyl_points(raxis, zaxis, phis, sc, section=False):
+    """phis: [(tag, angle)]; for sections the azimuth tag is part of the special set"""
+    out = []
+    for (tr, tz), (r, z), (rb, zb) in product_points([raxis, zaxis]):
+        for tp, ph in phis:
+            out.append(((tr, tz, tp), cyl_to_cart(r, ph, z),
+                        {"kind": "cyl", "coords": [r, z], "bases": [rb, zb], "phi": ph, "sc": sc,
+                         "alt_phis": [a for t, a in phis if t in ("phi-inside", "phi-outside")] if section else []}))
+    return out
+
+
+def to_xyz(gen, coords, phi=None):
+    if gen["kind"] == "cart":
+        return tuple(coords)
+    return cyl_to_cart(coords[0], gen["phi"] if phi is None else phi, coords[1])
 
 
 def cyl_to_cart(r, phi, z):
@@ -475,7 +497,7 @@ def geometries(ctx):
         # ---- Cuboid
         a, b, c = 0.5 * sc, 1.0 * sc, 1.5 * sc
         axes = [coord_set([("0", 0.0), ("+face", h), ("-face", -h)], sc, rich and first) for h in (a, b, c)]
-        pts = product_points(axes)
+        pts = cart_points(axes, sc)
         for pol in ((0, 0, 1), (1, 1, 1), (0, 0, 0)):
             yield ("Cuboid", f"pol={pol},scale={sc:g}",
                    lambda pol=pol: magpy.magnet.Cuboid(dimension=(2 * a, 2 * b, 2 * c), polarization=pol), pts, None, True)
@@ -483,35 +505,30 @@ def geometries(ctx):
         r0, z0 = 1.0 * sc, 0.75 * sc
         raxis = coord_set([("axis", 0.0), ("hull", r0), ("r=0.05r0", 0.05 * r0)], sc, rich, nonneg=True)
         zaxis = coord_set([("0", 0.0), ("+base", z0), ("-base", -z0)], sc, rich)
-        zaxis += [("inside", 0.3 * z0), ("inside", -0.9 * z0), ("above", 2.0 * z0), ("above", -3.0 * z0)]
-        cpts = []
-        for (tr, tz), (r, z) in product_points([raxis, zaxis]):
-            for ph in (0.0, "y", "-x", "-y", 0.7):
-                cpts.append(((tr, tz, f"phi={ph}"), cyl_to_cart(r, ph, z)))
+        zaxis += [("inside", 0.3 * z0, None), ("inside", -0.9 * z0, None), ("above", 2.0 * z0, None), ("above", -3.0 * z0, None)]
+        cpts = cyl_points(raxis, zaxis, [(f"phi={ph}", ph) for ph in (0.0, "y", "-x", "-y", 0.7)], sc)
         for pol in ((0, 0, 1), (1, 0, 0), (0.3, -0.4, 0.5), (0, 0, 0)):
             yield ("Cylinder", f"pol={pol},scale={sc:g}",
                    lambda pol=pol: magpy.magnet.Cylinder(dimension=(2 * r0, 2 * z0), polarization=pol), cpts, None, True)
         # ---- Circle
         raxis = coord_set([("axis", 0.0), ("wire", r0)], sc, rich, nonneg=True)
         zaxis = coord_set([("plane", 0.0)], sc, rich)
-        cpts = []
-        for (tr, tz), (r, z) in product_points([raxis, zaxis]):
-            for ph in (0.0, "y", "-x", 2.1):
-                cpts.append(((tr, tz, f"phi={ph}"), cyl_to_cart(r, ph, z)))
+        cpts = cyl_points(raxis, zaxis, [(f"phi={ph}", ph) for ph in (0.0, "y", "-x", 2.1)], sc)
         for cur in (1.0, 0.0):
             yield ("Circle", f"current={cur},scale={sc:g}",
                    lambda cur=cur: magpy.current.Circle(diameter=2 * r0, current=cur), cpts, None, True)
         # ---- Sphere
         axes = [coord_set([("0", 0.0), ("surface", r0), ("-surface", -r0)], sc, False) for _ in range(3)]
-        pts = product_points(axes)
+        pts = cart_points(axes, sc)
         sq = r0 / math.sqrt(3.0)
-        pts += [(("diag-surface",) * 3, (sq, sq, sq)), (("diag-surface",) * 3, (ulp_step(sq, 1), sq, -sq))]
+        for v in ((sq, sq, sq), (ulp_step(sq, 1), sq, -sq)):
+            pts.append((("diag-surface",) * 3, v, {"kind": "cart", "coords": list(v), "bases": [None] * 3, "sc": sc}))
         for pol in ((0, 0, 1), (0, 0, 0)):
             yield ("Sphere", f"pol={pol},scale={sc:g}",
                    lambda pol=pol: magpy.magnet.Sphere(diameter=2 * r0, polarization=pol), pts, None, True)
         # ---- Dipole (singular point: its location)
         axes = [coord_set([("0", 0.0)], sc, rich) for _ in range(3)]
-        pts = product_points(axes)
+        pts = cart_points(axes, sc)
         for mom in ((0, 0, 1), (1, -2, 3), (0, 0, 0)):
             yield ("Dipole", f"moment={mom},scale={sc:g}",
                    lambda mom=mom: magpy.misc.Dipole(moment=mom), pts,
@@ -522,20 +539,17 @@ def geometries(ctx):
                                         (0.0, 1.0 * sc, 1.0 * sc, 0.0, 360.0), (0.5 * sc, 1.0 * sc, 1.0 * sc, 0.0, 360.0)):
                 raxis = coord_set([("axis", 0.0), ("r1", r1), ("r2", r2)], sc, False, nonneg=True)
                 zaxis = coord_set([("0", 0.0), ("+base", h / 2), ("-base", -h / 2)], sc, False)
-                zaxis += [("inside", 0.15 * h), ("above", 1.0 * h)]
+                zaxis += [("inside", 0.15 * h, None), ("above", 1.0 * h, None)]
                 full = p2 - p1 >= 360
                 if full:
                     phis = [("phi=0", 0.0), ("phi=y", "y"), ("phi=-x", "-x"), ("phi=gen", 0.7)]
                 else:
-                    phis = [("phi1", math.radians(p1)), ("phi2", math.radians(p2)), ("mid", math.radians((p1 + p2) / 2)),
-                            ("opp", math.radians((p1 + p2) / 2 + 180)), ("phi1:ulp", ulp_step(math.radians(p1), 2)),
-                            ("phi2:near", math.radians(p2) - 1e-12)]
-                spts = []
-                for (tr, tz), (r, z) in product_points([raxis, zaxis]):
-                    for tp, ph in phis:
-                        spts.append(((tr, tz, tp), cyl_to_cart(r, ph, z)))
+                    phis = [("phiface:exact", math.radians(p1)), ("phiface:exact", math.radians(p2)),
+                            ("phi-inside", math.radians((p1 + p2) / 2)), ("phi-outside", math.radians((p1 + p2) / 2 + 180)),
+                            ("phiface:ulp", ulp_step(math.radians(p1), 2)), ("phiface:near", math.radians(p2) - 1e-12)]
+                spts = cyl_points(raxis, zaxis, phis, sc, section=not full)
                 kind = ("full" if full else "section") + ("-r1=0" if r1 == 0 else "-ring")
-                for pol in ((0, 0, 1), (1, 0.5, 0)):
+                for pol in (((0, 0, 1), (1, 0.5, 0)) if rich else ((0.2, 0.1, 1),)):
                     yield ("CylinderSegment", f"{kind},pol={pol},scale={sc:g}",
                            lambda pol=pol, d=(r1, r2, h, p1, p2): magpy.magnet.CylinderSegment(dimension=d, polarization=pol),
                            spts, None, True)
@@ -544,39 +558,39 @@ def geometries(ctx):
         xaxis = coord_set([("v0", 0.0), ("v1", 1.0 * sc), ("mid", 0.5 * sc), ("ext", 3.0 * sc), ("-ext", -2.0 * sc)], sc, False)
         yaxis = coord_set([("line", 0.0), ("v2", 2.0 * sc), ("ymid", 1.0 * sc)], sc, False)
         zaxis = coord_set([("plane", 0.0)], sc, rich)
-        pts = product_points([xaxis, yaxis, zaxis])
+        pts = cart_points([xaxis, yaxis, zaxis], sc)
         yield ("Polyline", f"L,scale={sc:g}", lambda: magpy.current.Polyline(vertices=verts, current=1.5), pts, None, True)
         yield ("Polyline", f"L,current=0,scale={sc:g}", lambda: magpy.current.Polyline(vertices=verts, current=0.0), pts, None, True)
         dv = [(0.0, 0.0, 0.0), (0.0, 0.0, 0.0), (1.0 * sc, 2.0 * sc, 3.0 * sc)]
-        dpts = [((f"extension-line*{m:g}",), tuple(m * x for x in dv[2])) for m in (0.5, 2.0, 100.3, -7.7, 1e6, 1e12)]
+        dpts = [((f"extension-line*{m:g}",), tuple(m * x for x in dv[2]), None) for m in (0.5, 2.0, 100.3, -7.7, 1e6, 1e12)]
         yield ("Polyline", f"zero-length-segment,scale={sc:g}",
                lambda: magpy.current.Polyline(vertices=dv, current=1.0), dpts, None, False)
         # ---- Triangle / Tetrahedron / TriangularMesh: faces, edges, in-plane, edge extension lines
         tv = [(0.0, 0.0, 0.0), (1.0 * sc, 0.0, 0.0), (0.0, 1.0 * sc, 0.0)]
         xaxis = coord_set([("v0", 0.0), ("v1", 1.0 * sc), ("mid", 0.5 * sc), ("in", 0.25 * sc), ("ext", 2.0 * sc)], sc, False)
         zaxis = coord_set([("plane", 0.0)], sc, rich)
-        pts = product_points([xaxis, xaxis, zaxis])
+        pts = cart_points([xaxis, xaxis, zaxis], sc)
         yield ("Triangle", f"scale={sc:g}", lambda: magpy.misc.Triangle(vertices=tv, polarization=(0.2, -0.3, 1.0)), pts,
                near_vertex(tv, sc), True)
         yield ("Triangle", f"pol=0,scale={sc:g}", lambda: magpy.misc.Triangle(vertices=tv, polarization=(0, 0, 0)), pts,
                near_vertex(tv, sc), True)
         tet = tv + [(0.0, 0.0, 1.0 * sc)]
         axes = [coord_set([("v0", 0.0), ("v1", 1.0 * sc), ("mid", 0.5 * sc), ("in", 0.2 * sc)], sc, False) for _ in range(3)]
-        pts3 = product_points(axes)
+        pts3 = cart_points(axes, sc)
         yield ("Tetrahedron", f"scale={sc:g}", lambda: magpy.magnet.Tetrahedron(vertices=tet, polarization=(0.1, 0.2, 1.0)),
                pts3, near_vertex(tet, sc), True)
         if first or rich:
             cube = [(x * sc, y * sc, z * sc) for x in (0.0, 1.0) for y in (0.0, 1.0) for z in (0.0, 1.0)]
             axes = [[c for c in coord_set([("v0", 0.0), ("v1", 1.0 * sc), ("mid", 0.5 * sc)], sc, False)
                      if not c[0].endswith((":tiny",)) and c[0] != "far" or c[1] == 1e3 * sc] for _ in range(3)]
-            ptsm = product_points(axes)
+            ptsm = cart_points(axes, sc)
             yield ("TriangularMesh", f"cube,scale={sc:g}",
                    lambda: magpy.magnet.TriangularMesh.from_ConvexHull(points=cube, polarization=(0, 0, 1.0)),
                    ptsm, near_vertex(cube, sc), True)
 
     # ---- zero-size sources (documented valid): observers named by where they are
-    gen = [(("at-source",), (0.0, 0.0, 0.0)), (("unit-x",), (1.0, 0.0, 0.0)), (("z-sub",), (0.0, 0.0, 1e-170)),
-           (("generic",), (1.0, 2.0, 3.0)), (("x-sub",), (5e-324, 0.0, 0.0)), (("far",), (1e12, 0.0, -1e12))]
+    gen = [(("at-source",), (0.0, 0.0, 0.0), None), (("unit-x",), (1.0, 0.0, 0.0), None), (("z-sub",), (0.0, 0.0, 1e-170), None),
+           (("generic",), (1.0, 2.0, 3.0), None), (("x-sub",), (5e-324, 0.0, 0.0), None), (("far",), (1e12, 0.0, -1e12), None)]
     yield ("Circle", "diameter=0", lambda: magpy.current.Circle(diameter=0.0, current=1.0), gen, None, False)
     yield ("Sphere", "diameter=0", lambda: magpy.magnet.Sphere(diameter=0.0, polarization=(0, 0, 1)), gen, None, False)
     yield ("Polyline", "all-equal-vertices",
@@ -585,17 +599,17 @@ def geometries(ctx):
     yield ("CylinderSegment", "size=1e-150,r1=0",
            lambda: magpy.magnet.CylinderSegment(dimension=(0, 1e-150, 1e-150, 0, 90), polarization=(0, 0, 1)), gen, None, False)
     for d in (1e-150, 1e-300):
-        tiny = [(("center",), (0.0, 0.0, 0.0)), (("rim",), (d / 2, 0.0, d / 2)), (("hull,z-sub",), (d / 2, 0.0, 1e-170)),
-                (("unit-x",), (1.0, 0.0, 0.0)), (("corner",), (d / 2, d / 2, d / 2)), (("above",), (0.0, 0.0, d)),
-                (("generic",), (1.0, 2.0, 3.0))]
+        tiny = [(("center",), (0.0, 0.0, 0.0), None), (("rim",), (d / 2, 0.0, d / 2), None), (("hull,z-sub",), (d / 2, 0.0, 1e-170), None),
+                (("unit-x",), (1.0, 0.0, 0.0), None), (("corner",), (d / 2, d / 2, d / 2), None), (("above",), (0.0, 0.0, d), None),
+                (("generic",), (1.0, 2.0, 3.0), None)]
         yield ("Cuboid", f"size={d:g}", lambda d=d: magpy.magnet.Cuboid(dimension=(d, d, d), polarization=(0, 0, 1)), tiny, None, False)
         yield ("Cylinder", f"size={d:g}", lambda d=d: magpy.magnet.Cylinder(dimension=(d, d), polarization=(0.5, 0, 1)), tiny, None, False)
         yield ("Sphere", f"size={d:g}", lambda d=d: magpy.magnet.Sphere(diameter=d, polarization=(0, 0, 1)), tiny, None, False)
         yield ("Circle", f"size={d:g}", lambda d=d: magpy.current.Circle(diameter=d, current=1.0), tiny, None, False)
     # flat cylinders / thin cuboids: one size far below the others
-    flat = [(("hull,z-sub",), (1.0, 0.0, 1e-170)), (("hull,z=0",), (1.0, 0.0, 0.0)), (("hull,z-inside",), (1.0, 0.0, 1e-200)),
-            (("inside,z-sub",), (0.5, 0.0, 1e-170)), (("hull,-z-sub",), (1.0, 0.0, -1e-160)), (("outside,z-sub",), (2.0, 0.0, 1e-170)),
-            (("hull-y,z-sub",), (0.0, 1.0, 1e-170))]
+    flat = [(("hull,z-sub",), (1.0, 0.0, 1e-170), None), (("hull,z=0",), (1.0, 0.0, 0.0), None), (("hull,z-inside",), (1.0, 0.0, 1e-200), None),
+            (("inside,z-sub",), (0.5, 0.0, 1e-170), None), (("hull,-z-sub",), (1.0, 0.0, -1e-160), None), (("outside,z-sub",), (2.0, 0.0, 1e-170), None),
+            (("hull-y,z-sub",), (0.0, 1.0, 1e-170), None)]
     for h in (2e-200, 2e-170):
         for pol in ((0, 0, 1), (1, 0, 0)):
             yield ("Cylinder", f"flat,h={h:g},pol={'axial' if pol[2] else 'diametral'}",
@@ -637,95 +651,131 @@ def check_one(mk, field, p, singular, n=1, confirm=8.0):
 
 
 def norm_tag(t):
-    """'+face:near' -> 'face:near' (sign dropped, kind kept); generic / far / azimuth-of-round-class tags -> None"""
-    if t in ("generic", "far") or t.startswith("phi="):
+    """'+face:near' -> 'face:near' (sign dropped, kind kept); generic / far / inside / above / azimuth tags -> None"""
+    if t in ("generic", "far", "inside", "above", "phi-inside", "phi-outside") or t.startswith("phi="):
         return None
     return t.lstrip("+-")
 
 
-def shrink_point(mk, field, tags, p, singular, clause, n):
-    """replace every Cartesian coordinate that is not needed for the failure by a generic value;
-    returns (essential tags, shrunk point).  Tags are per generation axis: Cartesian (x, y, z) or
-    cylindrical (r, z, azimuth) -- for the latter x and y both belong to the r tag."""
-    p = list(p)
-    m = max(abs(x) for x in p)
-    scale = 1.0 if (m == 0 or m > 1e6) else max(m, 1e-3)
-    cyl = len(tags) == 3 and (tags[2].startswith("phi") or tags[2] in ("mid", "opp"))
-    essential = [False, False, False]
-    for i in range(3):
-        for g in (0.37 * scale, -1.21 * scale):
-            q = list(p)
-            q[i] = g
-            if singular is not None and singular(q):
-                continue
-            r = check_one(mk, field, q, singular, n, confirm=4.0)
-            if r is not None and r[0] == clause:
-                p = q
+def shrink_point(mk, field, tags, gen, singular, clause, n):
+    """in the generation coordinates (x, y, z) or (r, z | azimuth):
+       1. every coordinate that is not needed for the failure is replaced by a generic value (its tag is dropped);
+       2. an essential coordinate whose offset is sub-normal / tiny is moved onto the special set itself when the
+          failure stays (the offset was not the cause): its kind becomes `exact`;
+       3. for a CylinderSegment section the azimuth is moved inside / outside the section; kept only when needed.
+    returns (essential tags with kinds, multiplicity kept, sorted; shrunk Cartesian point)"""
+    coords = list(gen["coords"])
+    sc = gen["sc"]
+    phi = gen.get("phi")
+    tags = list(tags)
+
+    def fails(cs, ph=None):
+        q = to_xyz(gen, cs, ph)
+        if singular is not None and singular(q):
+            return False
+        r = check_one(mk, field, q, singular, n, confirm=4.0)
+        return r is not None and r[0] == clause
+
+    ess = []
+    for i in range(len(coords)):
+        gens = (0.37 * sc, -1.21 * sc) if gen["kind"] == "cart" or i == 1 else (0.37 * sc, 1.21 * sc)
+        for g in gens:
+            cs = list(coords)
+            cs[i] = g
+            if fails(cs, phi):
+                coords = cs
                 break
         else:
-            essential[i] = True
-    if cyl:
-        ess = ([tags[0]] if (essential[0] or essential[1]) else []) + ([tags[1]] if essential[2] else [])
-        if not tags[2].startswith("phi=") and (essential[0] or essential[1]):
-            ess.append(tags[2])                      # azimuthal faces of a CylinderSegment section
-    else:
-        ess = [tags[i] for i in range(min(3, len(tags))) if essential[i]]
-    return sorted(t for t in (norm_tag(t) for t in ess) if t), p
+            t = tags[i]
+            base = gen["bases"][i]
+            if base is not None and t.rsplit(":", 1)[-1] in ("sub", "tiny"):
+                cs = list(coords)
+                cs[i] = base
+                if fails(cs, phi):
+                    coords, t = cs, t.rsplit(":", 1)[0] + ":exact"
+            ess.append(t)
+    if gen["kind"] == "cyl" and len(tags) == 3 and norm_tag(tags[2]) and gen.get("alt_phis"):
+        keep = True
+        if tags[0] in [t for t in ess]:              # the azimuth only means something off the axis
+            for alt in gen["alt_phis"]:
+                if fails(coords, alt):
+                    phi, keep = alt, False
+                    break
+        else:
+            keep = False
+        if keep:
+            ess.append(tags[2])
+    return sorted(t for t in (norm_tag(t) for t in ess) if t), to_xyz(gen, coords, phi)
 
 
 def signature(clause, cls, label, ess, shrinkable, n, tags):
-    """<clause>/<Class>:<special sets with kind of offset, with multiplicity>[:batchN]
-    e.g. finite/Cuboid:face:exact+face:exact+face:exact (a corner), finite/Cuboid:face:exact+face:near"""
+    """<clause>/<Class>:<special sets with kind of offset, multiplicity kept>[:batchN]
+    e.g. finite/Cuboid:face:exact+face:exact+face:exact (a corner), finite/Cuboid:face:exact+face:near
+    (in a face plane, near but outside the on-edge mask)"""
     if not shrinkable:
         reg = "[" + label + "]" + "+".join(tags)
     else:
         variant = label.split(",")[0] if cls == "CylinderSegment" else ""
+        if cls == "CylinderSegment":
+            ess = sorted(seg_kind(t) for t in ess)
         reg = (variant + ":" if variant else "") + ("+".join(ess) if ess else "generic-point")
     return f"{clause}/{cls}:{reg}" + (f":batch{n}" if n > 1 else "")
 
 
-SINGLES = {"Circle": 400, "Cylinder": 400, "CylinderSegment": 80}     # classes with batch-size dependent loops
+def seg_kind(t):
+    """CylinderSegment masks use atol 1e-12: exact / ulp / sub / tiny offsets are all ON the surface for them"""
+    if ":" not in t:
+        return t
+    name, kind = t.rsplit(":", 1)
+    return name + (":near" if kind == "near" else ":on")
+
+
+SINGLES = {"Circle": 400, "Cylinder": 400, "CylinderSegment": 60}     # classes with batch-size dependent loops
 NB = 16                                                                # cel switches at 10 rows, cel_iter at 15
 
 
 def search(ctx, big):
     found = 0
     tstart = time.time()
-    budget = ctx.n(110, 900) * (3 if big else 1)
+    budget = ctx.n(120, 900) * (3 if big else 1)
     failed = set()               # (class, coarse tags) already reported: not evaluated again
 
-    def report(cls, label, mk, field, tags, p, singular, shrinkable, clause, what, n):
+    def report(cls, label, mk, field, tags, p, gen, singular, shrinkable, clause, what, n):
         ess = []
-        if shrinkable:
-            ess, q = shrink_point(mk, field, tags, p, singular, clause, n)
+        if shrinkable and gen is not None:
+            ess, q = shrink_point(mk, field, tags, gen, singular, clause, n)
             r2 = check_one(mk, field, q, singular, n, confirm=4.0)
             if r2 is not None and r2[0] == clause:
                 p, what = q, r2[1]
-        sig = signature(clause, cls, label, ess, shrinkable, n, tags)
+        sig = signature(clause, cls, label, ess, shrinkable and gen is not None, n, tags)
         many = f" (the same observer {n} times in one call; alone it is fine)" if n > 1 else ""
         ctx.impl_fail(sig, f"{cls}({label}).get{field}({tuple(float(x) for x in p)!r}) {what}{many}",
                       {"kind": "point", "class": cls, "label": label, "field": field, "n": n,
                        "point": [float.hex(float(x)) for x in p], "tags": list(tags)})
 
-    for cls, label, mk, pts, singular, shrinkable in geometries(ctx):
+    geos = list(geometries(ctx))
+    order = {"CylinderSegment": 2, "TriangularMesh": 1}
+    geos.sort(key=lambda g: (order.get(g[0], 0), g[1].startswith("section")))     # slow, unmodelled cores last
+    for cls, label, mk, pts, singular, shrinkable in geos:
         if time.time() - tstart > budget:
             ctx.notes.append(f"search stopped at {cls} {label}: time budget {budget}s used")
             ctx.bump("search:stopped-by-budget")
+            ctx.log(f"search stopped at {cls} {label}: time budget {budget}s used")
             break
         if singular is not None:
-            pts = [(t, p) for t, p in pts if not singular(p)]
+            pts = [x for x in pts if not singular(x[1])]
         if cls == "Dipole":
             # within 1e-60 of the location |H| > 1e180 / overflows legitimately: part of the singular point
-            pts = [(t, p) for t, p in pts if max(abs(x) for x in p) >= 1e-60]
+            pts = [x for x in pts if max(abs(c) for c in x[1]) >= 1e-60]
         for field in ("B", "H"):
-            pts = [(t, p) for t, p in pts if (cls, coarse(t)) not in failed]
+            pts = [x for x in pts if (cls, coarse(x[0])) not in failed]
             if not pts:
                 continue
             groups = {}
-            for tags, p in pts:
-                groups.setdefault(coarse(tags), []).append((tags, p))
+            for x in pts:
+                groups.setdefault(coarse(x[0]), []).append(x)
             # 1. the whole battery in ONE call (>= 16 rows: vectorised celv / cel_iterv paths)
-            allp = [p for _, p in pts]
+            allp = [x[1] for x in pts]
             if len(allp) < NB:
                 allp = (allp * (NB // len(allp) + 1))
             st, v = evaluate(mk(), field, allp, 6.0 + len(allp) / 2000.0)
@@ -741,20 +791,21 @@ def search(ctx, big):
                     badrows = np.where(~np.all(np.isfinite(v), axis=1))[0]
                     seen_g = set()
                     for i in badrows:
-                        tg, pp = pts[i % len(pts)]
-                        key = tuple(sorted(t for t in (norm_tag(t) for t in tg) if t))
+                        x = pts[i % len(pts)]
+                        key = tuple(sorted((seg_kind(t) if cls == "CylinderSegment" else t)
+                                           for t in (norm_tag(t) for t in x[0]) if t))
                         if key not in seen_g:
                             seen_g.add(key)
-                            suspects.append((tg, pp))
+                            suspects.append(x)
             else:
                 # something in the battery hangs / raises: special set by special set, >= 16 rows each
                 for g, gp in groups.items():
-                    tile = ([p for _, p in gp] * (NB // len(gp) + 1))[:max(NB, len(gp))]
+                    tile = ([x[1] for x in gp] * (NB // len(gp) + 1))[:max(NB, len(gp))]
                     s2, _ = evaluate(mk(), field, tile, 2.0)
                     if s2 != "ok":
                         suspects.append(gp[0])
             # 2. every suspect alone, then NB times in one call
-            for tags, p in suspects:
+            for tags, p, gen in suspects:
                 if (cls, coarse(tags)) in failed:
                     continue
                 ctx.case(("search", cls, label, field, tuple(p)), True)
@@ -765,29 +816,30 @@ def search(ctx, big):
                         found += 1
                         hit = True
                         failed.add((cls, coarse(tags)))
-                        report(cls, label, mk, field, tags, p, singular, shrinkable, r[0], r[1], n)
+                        report(cls, label, mk, field, tags, p, gen, singular, shrinkable, r[0], r[1], n)
                         break
                 if not hit:
                     gp = groups[coarse(tags)]
-                    tile = ([q for _, q in gp] * (NB // len(gp) + 1))[:max(NB, len(gp))]
+                    tile = ([x[1] for x in gp] * (NB // len(gp) + 1))[:max(NB, len(gp))]
                     s3, v3 = guarded_confirm(lambda t=tile: (mk().getB if field == "B" else mk().getH)(np.array(t)), 2.0, 8.0)
                     badt = s3 != "ok" or not np.all(np.isfinite(np.asarray(v3)))
                     failed.add((cls, coarse(tags)))
                     found += 1
-                    ess_b = sorted(t for t in (norm_tag(t) for t in tags) if t)
+                    names = sorted({t.split(":")[0] for t in (norm_tag(t) for t in tags) if t})
                     clause = "terminates" if s3 == "hang" else f"returns[{type(v3).__name__}]" if s3 == "raise" else "finite"
-                    ctx.impl_fail(signature(clause, cls, label, ess_b, shrinkable, 0, tags) + ":mixed-batch",
+                    variant = label.split(",")[0] + ":" if cls == "CylinderSegment" else ""
+                    ctx.impl_fail(f"{clause}/{cls}:{variant}{'+'.join(names) or 'generic-point'}:mixed-batch",
                                   f"{cls}({label}).get{field} fails on a batch of different observers of this special set "
                                   f"({'reproduced on the set alone' if badt else 'only inside the full battery'}), "
                                   f"each observer alone and repeated {NB} times is fine; first observer {tuple(p)!r}",
                                   {"kind": "batch", "class": cls, "label": label, "field": field,
-                                   "points": [[float.hex(float(x)) for x in q] for q in tile[:64]]})
+                                   "points": [[float.hex(float(c)) for c in q] for q in tile[:64]]})
             # 3. the scalar paths (cel0 / cel_iter0 below 10 / 15 rows): one observer per call per special set
             keys = sorted(groups)
             cap = SINGLES.get(cls, 40) * (1 if ctx.tier == "quick" else 6) * (3 if big else 1)
             stride = max(1, -(-len(keys) // cap))
             for g in keys[::stride]:
-                tags, p = groups[g][0]
+                tags, p, gen = groups[g][0]
                 if (cls, g) in failed:
                     continue
                 ctx.case(("search", cls, label, field, tuple(p)), True)
@@ -795,7 +847,7 @@ def search(ctx, big):
                 if r is not None:
                     found += 1
                     failed.add((cls, g))
-                    report(cls, label, mk, field, tags, p, singular, shrinkable, r[0], r[1], 1)
+                    report(cls, label, mk, field, tags, p, gen, singular, shrinkable, r[0], r[1], 1)
     return found
 
 
